@@ -21,6 +21,7 @@ import c05_gen  # noqa
 import c05_router  # noqa
 import c05_illtyped  # noqa
 import c05_tails  # noqa
+import c05_abirec  # noqa
 import progcorpus  # noqa
 from c03 import store_dense_recipe  # noqa  (shared with C03: store/load-dense main routines)
 
@@ -341,6 +342,8 @@ def replay(path):
                 rc = 1
         if case["kind"] == "router":
             c = c05_router.RouterCase(case["router"], case["which"], case["version"], case["scratch_slots"], case["frame_pointers"])
+        elif case["kind"] == "abirec":
+            c = c05_abirec.AbiRecCase(case["program"], case["version"], case["scratch_slots"], case["frame_pointers"], case.get("slow", False))
         elif case["kind"] == "illtyped":
             c = c05_illtyped.IllCase(case["defect"], case["context"], case["version"], case["frame_pointers"], case.get("flavour", 0), case.get("whole", False))
         elif case["kind"] == "dense":
@@ -483,6 +486,13 @@ def main(argv):
                                       "defects": len(c05_illtyped.defects()) + len(c05_illtyped.whole_programs()),
                                       "contexts": ["%s/v%d/fp=%s" % x for x in c05_illtyped.CONTEXTS]}
 
+    # ---- 0d. recursion cycles through an ABIReturnSubroutine with an output argument, live locals of mixed storage types
+    n_abirec = 0
+    for c in c05_abirec.all_cases(pt, thorough):
+        consider(c, 3)
+        n_abirec += 1
+    ck.coverage["abi_recursion_cases"] = n_abirec
+
     # ---- 0c. routine-tail shapes: the last statement of a routine is an If / ElseIf / Cond / nesting with leaving and staying arms
     n_tail = 0
     tail_before = (stats["compile_error"], stats["accept"])
@@ -567,7 +577,7 @@ def main(argv):
     main_model.close()
     return ck.finish(
         level="proof",
-        rule="programs: routine-tail shapes (main routines and none/uint64/bytes subroutines with 0..2 arguments whose last statement is an If / If-ElseIf-Else / Cond / nesting "
+        rule="programs: recursion cycles through an ABIReturnSubroutine with an output argument and live locals of mixed storage types (scratch convention v6..10 and frame pointers), routine-tail shapes (main routines and none/uint64/bytes subroutines with 0..2 arguments whose last statement is an If / If-ElseIf-Else / Cond / nesting "
              "with leaving (Return/Approve/Reject/Err) and staying arms in every position, followed by another routine; versions 4..10, both conventions, optimiser on/off), a nearly-well-typed stream (one typing defect per program: a value in statement position, none where a value is needed, an operand / store / "
              "abi set / output.set / Return of the wrong concrete type; main routine, scratch-convention and frame-pointer subroutines; a compiler rejection is the expected outcome, an acceptance is checked), "
              "store/load-dense main routines (c03.store_dense_recipe; scratch_slots=True at v6, default at v9/v10; known-finding class decided by the Coq compile model), "
